@@ -617,3 +617,82 @@ def install(EXTERNALS, _fn):
     EXTERNALS['numpy.linalg'] = lambda I: I.load_module('numpy.linalg')
     EXTERNALS['numpy.linalg.norm'] = _fn('np.linalg.norm', np_norm)
     EXTERNALS['scipy.spatial.transform.Rotation'] = lambda I: ROTATION
+
+
+# ------------------------------------------------------------------ (C13) additions: argmax; int64 vectors for fromiter/astype/tobytes
+
+def np_argmax(I, a, k):
+    """index of the first maximal element of a float vector (forks over the comparisons; no NaN in mode R)"""
+    _no_kwargs('np.argmax', k)
+    if len(a) != 1:
+        raise OutOfSubset('np.argmax with axis')
+    arr = as_array(I, a[0])
+    if len(arr.shape) != 1 or not arr.items:
+        raise OutOfSubset('np.argmax of shape %r' % (arr.shape,))
+    best = 0
+    for i in range(1, len(arr.items)):
+        if I.decide(ops.compare(I, '>', arr.items[i], arr.items[best])):
+            best = i
+    return best
+
+
+class NDIntArray:
+    """one-dimensional integer array: only what np.fromiter(it, dtype=int).astype('<i2').tobytes() needs.  No arithmetic,
+    no indexing (everything else on it is out of subset)."""
+
+    def __init__(self, items, size, signed):
+        self.items, self.size, self.signed = list(items), size, signed
+
+    def np_getattr(self, I, name):
+        if name == 'astype':
+            return Builtin('ndarray.astype', lambda I_, a, k: self._astype(I, a, k))
+        if name == 'tobytes':
+            return Builtin('ndarray.tobytes', lambda I_, a, k: self._tobytes(I))
+        raise OutOfSubset('integer ndarray.%s is not modelled' % name)
+
+    def _astype(self, I, a, k):
+        import re
+        dt = a[0] if a else k.get('dtype')
+        names = {'int8': 'i1', 'int16': 'i2', 'int32': 'i4', 'int64': 'i8', 'uint8': 'u1', 'uint16': 'u2', 'uint32': 'u4', 'uint64': 'u8'}
+        m = re.match(r'^[<=|]?([iu])([1248])$', names.get(dt, dt) if isinstance(dt, str) else '')
+        if m is None:
+            raise OutOfSubset('integer ndarray.astype(%r)' % (dt,))
+        size, signed = int(m.group(2)), m.group(1) == 'i'
+        mod = 1 << (8 * size)
+        out = []
+        for x in self.items:        # integer -> integer conversion is the C cast: wraps modulo 2**(8*size), never raises
+            if isinstance(x, int):
+                w = x % mod
+                out.append(w - mod if signed and w >= mod // 2 else w)
+            else:
+                w = ops.zterm(x) % mod
+                out.append(ops.mk_int(z3.If(w >= mod // 2, w - mod, w) if signed else w))
+        return NDIntArray(out, size, signed)
+
+    def _tobytes(self, I):
+        from . import structmodel
+        I.note_assumption('ndarray.tobytes(): little-endian host')
+        out = []
+        for x in self.items:
+            out.extend(structmodel.int_to_bytes(I, x, self.size, self.signed, False))
+        return PBytes(out)
+
+
+def np_fromiter(I, a, k):
+    dt = k.get('dtype', a[1] if len(a) > 1 else None)
+    if not (isinstance(dt, BuiltinType) and dt.name == 'int') and dt not in ('int', 'int64'):
+        raise OutOfSubset('np.fromiter dtype %r (only dtype=int)' % (dt,))
+    items = I.iterate_all(a[0])
+    for x in items:
+        if not ops.is_intlike(x) or isinstance(x, (bool, SBool)):
+            raise OutOfSubset('np.fromiter(dtype=int) element %r' % (x,))
+        t = ops.zterm(x)
+        fits = (-(1 << 63) <= x < (1 << 63)) if isinstance(x, int) else I.path.decide(z3.And(t >= -(1 << 63), t < (1 << 63)))
+        if not fits:
+            I.raise_py('OverflowError', 'Python int too large to convert to C long')
+    return NDIntArray(items, 8, True)
+
+
+def install_c13(EXTERNALS, _fn):
+    EXTERNALS.setdefault('numpy.argmax', _fn('np.argmax', np_argmax))
+    EXTERNALS.setdefault('numpy.fromiter', _fn('np.fromiter', np_fromiter))
